@@ -2,14 +2,14 @@
    Only ExtrOcamlBasic is used (bool, option, unit, list, prod, sumbool, sumor
    mapped to OCaml's); N, positive, Z, nat stay the extracted inductive types. *)
 From Coq Require Import ExtrOcamlBasic.
-From XD Require Import Model.Base Model.Ellipsis Model.Checker Model.Parser Model.Text Model.Directive Model.RunLoop Model.Runner Model.Collect Model.FS Spec.ImportResolve Model.Proc Model.Isolation Model.Format Model.StaticCollect Model.DynCollect Model.Lines Model.StdDoctest Model.Report.
+From XD Require Import Model.Base Model.Ellipsis Model.Checker Model.Parser Model.Text Model.Directive Model.RunLoop Model.Runner Model.Collect Model.FS Spec.ImportResolve Model.Proc Model.Isolation Model.Format Model.StaticCollect Model.DynCollect Model.Lines Model.StdDoctest Model.StdOutput Model.Report.
 Extraction Language OCaml.
 Extraction "../ocaml/xdmodel_core.ml"
   is_space is_linebreak is_word
   eqb_str starts_with ends_with find_sub contains words splitlines_keep splitlines
   split_on join strip lstrip rstrip
   Z.add Z.sub Z.ltb Z.of_nat Z.to_nat
-  split_ell ellipsis_match split_std std_ellipsis_match
+  split_ell ellipsis_match split_std std_ellipsis_match std_check_output std_rm_blank std_blank_got
   strip_ansi rm_prefix rm_blankline rm_trailing_ws drop_cr_lines collapse_ws delete_ws
   norm_repr normalize check_match check_output strip_exception_details extract_exc_want_cb
   check_exception_cb check_got_vs_want default_flags strict_flags is_uU is_bB
